@@ -37,6 +37,11 @@ def main():
         print("replaying %s %s on the current tree" % chk.replay_key)
     try:
         return mod.run(chk, tier)
+    except GeneratorRejects as e:
+        chk.violation("GEN.accept" if e.rc == 1 else "GEN.crash", "generator:" + e.schema, "corpus/%s.xml" % e.schema,
+                      "sbeppc built from this tree %s the valid schema %s: %s" % ("rejects" if e.rc == 1 else "terminates abnormally (status %s) on" % e.rc, e.schema, e.out[-240:]))
+        return chk.finish(explanation="aborted: the generator does not accept a schema of the build set / corpus; rules evaluated before it are listed",
+                          rule_text="partial run")
     except SelfRecursion as e:
         fn = e.fn
         chk.violation("E2.recursion", "recursion:" + (fn.get("base") or fn.get("qn", "?"))[:120], "%s:%s" % (rel(fn.get("file", "?")), fn.get("line")),
